@@ -242,4 +242,450 @@ theorem fillWithFieldsLocationsUsingRegex_in (buf : List Range) (line : Bytes)
   · trivial
   · exact rangesBetweenMatches_in _ _ 0 h (Nat.zero_le _)
 
+/-! ## bounds lists: `fromVec` is never handed a list without bound -/
+
+/-- no bound of the list has the left index 0 (all the slicing needs; the parser never produces
+    an index 0 on either side) -/
+def LNZ (l : List BoF) : Prop := ∀ b, BoF.bound b ∈ l → b.l ≠ .some 0
+
+theorem LNZ.of_nonzero {l : List BoF} (h : ∀ b, BoF.bound b ∈ l → b.Nonzero) : LNZ l := by
+  intro b hb h0
+  have := (h b hb).1
+  rw [h0] at this
+  exact this rfl
+
+theorem LNZ.tail {x : BoF} {t : List BoF} (h : LNZ (x :: t)) : LNZ t :=
+  fun b hb => h b (List.mem_cons_of_mem _ hb)
+
+theorem mem_boundsOnly {l : List BoF} {b : UserBounds} : b ∈ boundsOnly l ↔ BoF.bound b ∈ l := by
+  induction l with
+  | nil => simp [boundsOnly]
+  | cons x t ih =>
+    cases x with
+    | bound b' => simp [boundsOnly, ih]
+    | filler f => simp [boundsOnly, ih]
+
+theorem markLast_eq_none_iff : ∀ (l : List BoF), markLast l = none ↔ boundsOnly l = []
+  | [] => by simp [markLast, boundsOnly]
+  | .filler f :: t => by
+    simp only [markLast, boundsOnly, Option.map_eq_none_iff]
+    exact markLast_eq_none_iff t
+  | .bound b :: t => by
+    simp only [markLast, boundsOnly]
+    cases markLast t <;> simp
+
+/-- `markLast` only touches the `is_last` flag -/
+theorem markLast_sides : ∀ (l l' : List BoF), markLast l = some l' →
+    ∀ b, BoF.bound b ∈ l' → ∃ b0, BoF.bound b0 ∈ l ∧ b0.l = b.l ∧ b0.r = b.r
+  | [], _, h => by simp [markLast] at h
+  | .filler f :: t, l', h => by
+    simp only [markLast, Option.map_eq_some_iff] at h
+    obtain ⟨t', ht, rfl⟩ := h
+    intro b hb
+    simp only [List.mem_cons, reduceCtorEq, false_or] at hb
+    obtain ⟨b0, h0, h1⟩ := markLast_sides t t' ht b hb
+    exact ⟨b0, List.mem_cons_of_mem _ h0, h1⟩
+  | .bound x :: t, l', h => by
+    simp only [markLast] at h
+    cases hm : markLast t with
+    | none =>
+      simp only [hm, Option.some.injEq] at h
+      subst h
+      intro b hb
+      simp only [List.mem_cons, BoF.bound.injEq] at hb
+      rcases hb with rfl | hb
+      · exact ⟨x, by simp, rfl, rfl⟩
+      · exact ⟨b, by simp [hb], rfl, rfl⟩
+    | some t' =>
+      simp only [hm, Option.some.injEq] at h
+      subst h
+      intro b hb
+      simp only [List.mem_cons, BoF.bound.injEq] at hb
+      rcases hb with rfl | hb
+      · exact ⟨b, by simp, rfl, rfl⟩
+      · obtain ⟨b0, h0, h1⟩ := markLast_sides t t' hm b hb
+        exact ⟨b0, List.mem_cons_of_mem _ h0, h1⟩
+
+theorem fromVec_ne_panic (l : List BoF) (h : boundsOnly l ≠ []) : fromVec l ≠ .panic := by
+  unfold fromVec
+  cases hm : markLast l with
+  | none => exact absurd ((markLast_eq_none_iff l).1 hm) h
+  | some l' => simp
+
+theorem fromVec_sides (l : List BoF) (u : UserBoundsList) (h : fromVec l = .ok u) :
+    ∀ b, BoF.bound b ∈ u.list → ∃ b0, BoF.bound b0 ∈ l ∧ b0.l = b.l ∧ b0.r = b.r := by
+  unfold fromVec at h
+  cases hm : markLast l with
+  | none => simp [hm] at h
+  | some l' =>
+    simp only [hm, Res.ok.injEq] at h
+    subst h
+    exact markLast_sides l l' hm
+
+theorem fromVec_lnz (l : List BoF) (u : UserBoundsList) (h : fromVec l = .ok u) (hl : LNZ l) :
+    LNZ u.list := by
+  intro b hb
+  obtain ⟨b0, h0, h1, _⟩ := fromVec_sides l u h b hb
+  rw [← h1]; exact hl b0 h0
+
+theorem fromVec_ne_fail (l : List BoF) : fromVec l ≠ .fail := by
+  unfold fromVec
+  cases markLast l <;> simp
+
+/-- `complement_std_range` produces ranges with a positive 1-based left index -/
+theorem complementBof_lnz (n : Nat) (x : BoF) (hx : ∀ b, x = .bound b → b.l ≠ .some 0) :
+    LNZ (complementBof n x) := by
+  cases x with
+  | filler f => intro b hb; simp [complementBof] at hb
+  | bound b0 =>
+    intro b hb
+    unfold complementBof at hb
+    cases hc : b0.complement n with
+    | none =>
+      simp only [hc, List.mem_singleton, BoF.bound.injEq] at hb
+      subst hb
+      exact hx b0 rfl
+    | some bs =>
+      simp only [hc, List.mem_map, BoF.bound.injEq, exists_eq_right] at hb
+      unfold UserBounds.complement at hc
+      simp only [Option.map_eq_some_iff] at hc
+      obtain ⟨r, _, rfl⟩ := hc
+      simp only [List.mem_map] at hb
+      obtain ⟨q, _, rfl⟩ := hb
+      simp only [UserBounds.ofRange, ne_eq, Side.some.injEq]
+      omega
+
+theorem flatMap_lnz (f : BoF → List BoF) (l : List BoF)
+    (h : ∀ x ∈ l, LNZ (f x)) : LNZ (l.flatMap f) := by
+  intro b hb
+  simp only [List.mem_flatMap] at hb
+  obtain ⟨x, hx, hbx⟩ := hb
+  exact h x hx b hbx
+
+theorem complementList_ok (l : List BoF) (n : Nat) (hl : LNZ l) :
+    complementList l n ≠ .panic ∧ ∀ u, complementList l n = .ok u → LNZ u.list := by
+  unfold complementList
+  simp only
+  split
+  · exact ⟨by simp, by intro u h; cases h⟩
+  · rename_i hne
+    refine ⟨fromVec_ne_panic _ (by simpa using hne), ?_⟩
+    intro u hu
+    refine fromVec_lnz _ u hu (flatMap_lnz _ _ ?_)
+    intro x hx
+    exact complementBof_lnz n x (fun b hb => hl b (hb ▸ hx))
+
+theorem unpackBof_lnz (n : Nat) (x : BoF) (hx : ∀ b, x = .bound b → b.l ≠ .some 0) :
+    LNZ (unpackBof n x) := by
+  cases x with
+  | filler f => intro b hb; simp [unpackBof] at hb
+  | bound b0 =>
+    intro b hb
+    simp only [unpackBof, List.mem_map, BoF.bound.injEq, exists_eq_right] at hb
+    unfold UserBounds.unpack at hb
+    split at hb
+    · simp only [List.mem_map, List.mem_range] at hb
+      obtain ⟨i, _, rfl⟩ := hb
+      simp only [UserBounds.single, ne_eq, Side.some.injEq]
+      omega
+    · simp only [List.mem_singleton] at hb
+      subst hb
+      exact hx b0 rfl
+
+/-- a bound with a non-zero left index unpacks to at least one bound -/
+theorem unpack_ne_nil (b : UserBounds) (n : Nat) (hz : b.l ≠ .some 0) : b.unpack n ≠ [] := by
+  unfold UserBounds.unpack
+  cases hr : b.tryIntoRange n with
+  | none => simp
+  | some p =>
+    obtain ⟨s, e⟩ := p
+    have := tryIntoRange_bounds b n s e hz hr
+    simp only [ne_eq, List.map_eq_nil_iff, List.range_eq_nil]
+    omega
+
+theorem boundsOnly_flatMap_unpack_ne_nil (l : List BoF) (n : Nat) (hl : LNZ l)
+    (h : boundsOnly l ≠ []) : boundsOnly (l.flatMap (unpackBof n)) ≠ [] := by
+  cases hb : boundsOnly l with
+  | nil => exact absurd hb h
+  | cons b _ =>
+    have hmem : BoF.bound b ∈ l := mem_boundsOnly.1 (by rw [hb]; simp)
+    have hne := unpack_ne_nil b n (hl b hmem)
+    cases hu : b.unpack n with
+    | nil => exact absurd hu hne
+    | cons u _ =>
+      have : BoF.bound u ∈ l.flatMap (unpackBof n) := by
+        simp only [List.mem_flatMap]
+        exact ⟨.bound b, hmem, by simp [unpackBof, hu]⟩
+      intro hnil
+      have := mem_boundsOnly.2 this
+      rw [hnil] at this
+      simp at this
+
+theorem unpackList_ok (l : List BoF) (n : Nat) (hl : LNZ l) (h : boundsOnly l ≠ []) :
+    unpackList l n ≠ .panic ∧ unpackList l n ≠ .fail ∧
+      ∀ u, unpackList l n = .ok u → LNZ u.list := by
+  unfold unpackList
+  refine ⟨fromVec_ne_panic _ (boundsOnly_flatMap_unpack_ne_nil l n hl h), fromVec_ne_fail _, ?_⟩
+  intro u hu
+  refine fromVec_lnz _ u hu (flatMap_lnz _ _ ?_)
+  intro x hx
+  exact unpackBof_lnz n x (fun b hb => hl b (hb ▸ hx))
+
+theorem boundsOnly_ne_nil_of_any_needsUnpack (l : List BoF) (h : l.any needsUnpack = true) :
+    boundsOnly l ≠ [] := by
+  simp only [List.any_eq_true] at h
+  obtain ⟨x, hx, hn⟩ := h
+  cases x with
+  | filler f => simp [needsUnpack] at hn
+  | bound b =>
+    intro hnil
+    have := mem_boundsOnly.2 hx
+    rw [hnil] at this
+    simp at this
+
+/-! ## the general engine -/
+
+theorem outputBof_safe (line : Bytes) (fields : List Range) (opt : Opt) (cwr : Bool) (x : BoF)
+    (hf : RangesIn line.length 0 fields) (hx : ∀ b, x = .bound b → b.l ≠ .some 0) :
+    (outputBof line fields fields.length opt cwr x).Safe := by
+  cases x with
+  | filler f => exact Run.safe_ok _
+  | bound b =>
+    have hj : (if opt.join && !b.isLast then Run.ok (opt.replaceDelimiter.getD opt.delimiter)
+        else Run.empty).Safe := by
+      split
+      · exact Run.safe_ok _
+      · exact Run.safe_empty
+    simp only [outputBof]
+    cases hr : b.tryIntoRange fields.length with
+    | some p =>
+      obtain ⟨s, e⟩ := p
+      have hb := tryIntoRange_bounds b fields.length s e (hx b rfl) hr
+      have hs : s < fields.length := by omega
+      have he : e - 1 < fields.length := by omega
+      simp only [List.getElem?_eq_getElem hs, List.getElem?_eq_getElem he]
+      have := hf.getElem s (e - 1) (by omega) he
+      rw [if_pos ⟨this.2.1, this.2.2⟩]
+      exact (writeMaybeAsJson_safe _ _).seq hj
+    | none =>
+      simp only
+      cases b.fallback with
+      | some f => exact (writeMaybeAsJson_safe _ _).seq hj
+      | none =>
+        cases opt.fallbackOob with
+        | some f => exact (writeMaybeAsJson_safe _ _).seq hj
+        | none => exact Run.safe_fail
+
+theorem outputLoop_safe (line : Bytes) (fields : List Range) (opt : Opt) (cwr : Bool)
+    (hf : RangesIn line.length 0 fields) (l : List BoF) (hl : LNZ l) :
+    (outputLoop line fields fields.length opt cwr l).Safe := by
+  induction l with
+  | nil => exact Run.safe_empty
+  | cons x t ih =>
+    simp only [outputLoop]
+    exact (outputBof_safe line fields opt cwr x hf (fun b hb => hl b (by simp [hb]))).seq
+      (ih hl.tail)
+
+theorem emitRecord_safe (line : Bytes) (fields : List Range) (opt : Opt) (cwr : Bool) (eol : Bytes)
+    (hf : RangesIn line.length 0 fields) (hl : LNZ opt.bounds.list) :
+    (emitRecord line fields opt cwr eol).Safe := by
+  unfold emitRecord
+  simp only
+  split
+  · exact Run.safe_empty
+  · have hopen : (if opt.json then Run.ok [0x5B] else Run.empty).Safe := by
+      split
+      · exact Run.safe_ok _
+      · exact Run.safe_empty
+    have hclose : (if opt.json then Run.ok [0x5D] else Run.empty).Safe := by
+      split
+      · exact Run.safe_ok _
+      · exact Run.safe_empty
+    refine hopen.seq ?_
+    -- what is in force after the complement step
+    have hcomp : (if opt.complement then complementList opt.bounds.list fields.length
+          else Res.ok opt.bounds) ≠ .panic ∧
+        ∀ u, (if opt.complement then complementList opt.bounds.list fields.length
+          else Res.ok opt.bounds) = .ok u → LNZ u.list := by
+      split
+      · exact complementList_ok _ _ hl
+      · exact ⟨by simp, by intro u hu; cases hu; exact hl⟩
+    generalize (if opt.complement then complementList opt.bounds.list fields.length
+          else Res.ok opt.bounds) = ac at hcomp
+    cases ac with
+    | fail => exact Run.safe_fail
+    | panic => exact absurd rfl hcomp.1
+    | ok bounds =>
+      have hb := hcomp.2 bounds rfl
+      simp only
+      have hunp : (if (opt.json || (opt.boundsType = .characters && opt.replaceDelimiter.isSome))
+              && bounds.list.any needsUnpack
+            then unpackList bounds.list fields.length else Res.ok bounds) ≠ .panic ∧
+          ∀ u, (if (opt.json || (opt.boundsType = .characters && opt.replaceDelimiter.isSome))
+              && bounds.list.any needsUnpack
+            then unpackList bounds.list fields.length else Res.ok bounds) = .ok u → LNZ u.list := by
+        split
+        · rename_i hc
+          simp only [Bool.and_eq_true] at hc
+          have := unpackList_ok bounds.list fields.length hb
+            (boundsOnly_ne_nil_of_any_needsUnpack _ hc.2)
+          exact ⟨this.1, this.2.2⟩
+        · exact ⟨by simp, by intro u hu; cases hu; exact hb⟩
+      generalize (if (opt.json || (opt.boundsType = .characters && opt.replaceDelimiter.isSome))
+              && bounds.list.any needsUnpack
+            then unpackList bounds.list fields.length else Res.ok bounds) = un at hunp
+      cases un with
+      | fail => exact Run.safe_fail
+      | panic => exact absurd rfl hunp.1
+      | ok bounds' =>
+        exact ((outputLoop_safe line fields opt cwr hf _ (hunp.2 bounds' rfl)).seq hclose).seq
+          (Run.safe_ok _)
+
+/-- the line after the trim pass of `cut_str` -/
+def trimOf (opt : Opt) (line : Bytes) : Bytes :=
+  match opt.trim with
+  | some kind =>
+    match opt.regexBag with
+    | some bag => trimRegex line kind (bag.greedy line)
+    | none => trimLiteral line kind opt.delimiter
+  | none => line
+
+/-- the ranges `cut_str` leaves in `fields` for the (trimmed, maybe compressed) line -/
+def engineFields (opt : Opt) (line delimiter : Bytes) (useRegex : Bool) : List Range :=
+  let fields : List Range :=
+    match useRegex, opt.regexBag with
+    | true, some bag =>
+      fillWithFieldsLocationsUsingRegex [] line
+        ((if opt.greedyDelimiter then bag.greedy else bag.normal) line)
+    | _, _ =>
+      if opt.greedyDelimiter then fillWithFieldsLocationsGreedy [] line delimiter
+      else fillWithFieldsLocations [] line delimiter
+  if opt.boundsType = .characters && fields.length > 2 then fields.dropLast.drop 1 else fields
+
+/-- `cut_str` after its two up-front tests and the trim pass -/
+def afterTrim (line : Bytes) (opt : Opt) (eol : Bytes) : Run × Option (List Range) × Option Bytes :=
+  if line.isEmpty then
+    ((if !opt.onlyDelimited then Run.ok eol else Run.empty), none, none)
+  else
+    let shouldCompress :=
+      opt.compressDelimiter && (opt.boundsType = .fields || opt.boundsType = .lines)
+    let st : Option (Bytes × Bytes × Bool × Option Bytes × Bool) :=
+      if shouldCompress then
+        match opt.regexBag with
+        | some bag =>
+          match opt.replaceDelimiter with
+          | some nd => some (replaceMatches line nd 0 (bag.greedy line), nd, false, none, true)
+          | none => none
+        | none =>
+          let c := compressDelimiter line opt.delimiter []
+          some (c, opt.delimiter, false, some c, false)
+      else some (line, opt.delimiter, opt.regexBag.isSome, none, false)
+    match st with
+    | none => (Run.panic, none, none)
+    | some (line, delimiter, useRegex, buf, compressedWithRegex) =>
+      (emitRecord line (engineFields opt line delimiter useRegex) opt compressedWithRegex eol,
+        some (engineFields opt line delimiter useRegex), buf)
+
+theorem cutStrCore_eq (line : Bytes) (opt : Opt) (eol : Bytes) :
+    cutStrCore line opt eol =
+      if opt.regexBag.isSome && opt.compressDelimiter && opt.replaceDelimiter.isNone then
+        (Run.fail, none, none)
+      else if opt.regexBag.isSome && opt.join && opt.replaceDelimiter.isNone then
+        (Run.fail, none, none)
+      else afterTrim (trimOf opt line) opt eol := rfl
+
+theorem engineFields_in (opt : Opt) (hbag : ∀ bag, opt.regexBag = some bag → bag.OK)
+    (line delimiter : Bytes) (useRegex : Bool) :
+    RangesIn line.length 0 (engineFields opt line delimiter useRegex) := by
+  have h : RangesIn line.length 0
+      (match useRegex, opt.regexBag with
+        | true, some bag =>
+          fillWithFieldsLocationsUsingRegex [] line
+            ((if opt.greedyDelimiter then bag.greedy else bag.normal) line)
+        | _, _ =>
+          if opt.greedyDelimiter then fillWithFieldsLocationsGreedy [] line delimiter
+          else fillWithFieldsLocations [] line delimiter) := by
+    split
+    · rename_i bag hre
+      apply fillWithFieldsLocationsUsingRegex_in
+      split
+      · exact (hbag bag hre line).2
+      · exact (hbag bag hre line).1
+    · split
+      · exact fillWithFieldsLocationsGreedy_in _ _ _
+      · exact fillWithFieldsLocations_in _ _ _
+  have key : ∀ fs : List Range, RangesIn line.length 0 fs →
+      RangesIn line.length 0
+        (if opt.boundsType = .characters && fs.length > 2 then fs.dropLast.drop 1 else fs) := by
+    intro fs hfs
+    split
+    · exact hfs.dropLast.drop_one
+    · exact hfs
+  exact key _ h
+
+theorem afterTrim_safe (line : Bytes) (opt : Opt) (eol : Bytes)
+    (hbag : ∀ bag, opt.regexBag = some bag → bag.OK) (hl : LNZ opt.bounds.list)
+    (hc1 : ¬ (opt.regexBag.isSome && opt.compressDelimiter && opt.replaceDelimiter.isNone) = true) :
+    (afterTrim line opt eol).1.Safe := by
+  unfold afterTrim
+  split
+  · simp only
+    split
+    · exact Run.safe_ok _
+    · exact Run.safe_empty
+  · simp only
+    by_cases hsc : (opt.compressDelimiter &&
+        (decide (opt.boundsType = .fields) || decide (opt.boundsType = .lines))) = true
+    · rw [if_pos hsc]
+      cases hre : opt.regexBag with
+      | none =>
+        simp only
+        exact emitRecord_safe _ _ opt _ eol (engineFields_in opt hbag _ _ _) hl
+      | some bag =>
+        cases hrd : opt.replaceDelimiter with
+        | none =>
+          exfalso
+          apply hc1
+          simp only [Bool.and_eq_true] at hsc
+          simp [hre, hrd, hsc.1]
+        | some nd =>
+          simp only
+          exact emitRecord_safe _ _ opt _ eol (engineFields_in opt hbag _ _ _) hl
+    · rw [if_neg hsc]
+      simp only
+      exact emitRecord_safe _ _ opt _ eol (engineFields_in opt hbag _ _ _) hl
+
+/-- **`cut_str` never panics**: any line, any option set; a regex delimiter only has to honour the
+    contract of `find_iter`.  (The `unwrap()` of the replacement after a regex compress is excluded
+    by the first test of the function.) -/
+theorem cutStrCore_safe (line : Bytes) (opt : Opt) (eol : Bytes)
+    (hbag : ∀ bag, opt.regexBag = some bag → bag.OK) (hl : LNZ opt.bounds.list) :
+    (cutStrCore line opt eol).1.Safe := by
+  rw [cutStrCore_eq]
+  split
+  · exact Run.safe_fail
+  · rename_i hc1
+    split
+    · exact Run.safe_fail
+    · exact afterTrim_safe _ opt eol hbag hl hc1
+
+theorem cutStr_safe (line : Bytes) (opt : Opt) (f₀ : List Range) (b₀ eol : Bytes)
+    (hbag : ∀ bag, opt.regexBag = some bag → bag.OK) (hl : LNZ opt.bounds.list) :
+    (cutStr line opt f₀ b₀ eol).1.Safe := cutStrCore_safe line opt eol hbag hl
+
+theorem cutRecords_safe (opt : Opt) (hbag : ∀ bag, opt.regexBag = some bag → bag.OK)
+    (hl : LNZ opt.bounds.list) (recs : List Bytes) :
+    ∀ (f₀ : List Range) (b₀ : Bytes), (cutRecords opt recs f₀ b₀).Safe := by
+  induction recs with
+  | nil => intro _ _; exact Run.safe_empty
+  | cons r t ih =>
+    intro f₀ b₀
+    simp only [cutRecords]
+    exact (cutStr_safe r opt f₀ b₀ _ hbag hl).seq (ih _ _)
+
+/-- **the general engine never panics** -/
+theorem readAndCutStr_safe (opt : Opt) (hbag : ∀ bag, opt.regexBag = some bag → bag.OK)
+    (hl : LNZ opt.bounds.list) (input : Bytes) : (readAndCutStr opt input).Safe :=
+  cutRecords_safe opt hbag hl _ _ _
+
 end Tuc
